@@ -108,10 +108,11 @@ only read -/
 def WritesOnlySync (M : Machine σ π ω) (sync : Nat → Bool) : Prop :=
   ∀ s p a, a ∈ M.footprint s p → a.write = true → sync a.loc = true
 
-/-! ## the one place where const execution is *not* read-only: `XalanList::getListHead() const`
+/-! ## the one place where const execution was *not* read-only: `XalanList::getListHead() const`
 
-Transcription of Include/XalanList.hpp:477-492 and of its caller
-XalanSourceTree/XalanSourceTreeDocument.cpp:309-322:
+Transcription of Include/XalanList.hpp and of its caller XalanSourceTree/XalanSourceTreeDocument.cpp:309-322 **as they
+were before `fix:` d0cd23c / c994d6f** (kept because it explains what the race did; the code as it is now is
+`nullHeadMachine` below):
 
 ```
 Node& getListHead()       { if (0 == m_listHead) { m_listHead = allocate(1); … } return *m_listHead; }
@@ -155,5 +156,25 @@ def listHeadMachine : Machine (Option Nat) LHThread Bool where
 
 def listHeadConfig (n : Nat) : Config (Option Nat) LHThread Bool :=
   { shared := none, threads := (List.range n).map fun k => ({ pc := 0, tid := k, i := 0 }, []) }
+
+/-! ## the same lookup after `fix:` c994d6f (Include/XalanList.hpp, `begin()/end() const`)
+
+```
+const_iterator end() const { return m_listHead == 0 ? const_iterator() : const_iterator(*m_listHead); }
+```
+A never-used list has no head; `end()` is the null iterator (modelled as `0`; real nodes are `a+1`), `find()` on the
+empty map returns it and `i == end()` compares two null iterators.  No step writes. -/
+
+def nullHeadMachine : Machine (Option Nat) LHThread Bool where
+  step := fun head t =>
+    match t.pc with
+    | 0 => (head, { t with pc := 2, i := match head with | none => 0 | some a => a + 1 }, [])
+    | 2 => (head, { t with pc := 3 }, [decide (t.i = match head with | none => 0 | some a => a + 1)])
+    | _ => (head, t, [])
+  footprint := fun _ t =>
+    match t.pc with
+    | 0 => [{ loc := 0, write := false }]
+    | 2 => [{ loc := 0, write := false }]
+    | _ => []
 
 end XalanModel.C07
